@@ -20,6 +20,7 @@ EXPLANATION = (
 def run(ctx: Ctx) -> None:
     from ..rules import shapes as _shapes
     _shapes.rule_relabel_map_self(ctx)
+    _shapes.rule_relabel_map_direction(ctx)
     from ..rules import memo as _memo
     _memo.rule_memo_sound(ctx, ['graphiq/utils/relabel_module.py'])
     orbits.rule_orbit_provenance(ctx, ["lc_orbit_finder", "rgs_orbit_finder", "linear_partial_orbit", "depth_first_orbit"])
@@ -35,6 +36,7 @@ def run(ctx: Ctx) -> None:
 
 
 KNOCKOUTS = [
+    Knockout("relabel-map-swapped", "graphiq/utils/relabel_module.py", sub_once("    GM = isomorphism.GraphMatcher(g1, g2)", "    GM = isomorphism.GraphMatcher(g2, g1)"), "relabel.map-direction", "swapped"),
     Knockout("relabel-map-identity", "graphiq/utils/relabel_module.py", sub_once('return {**{-1: "self"}, **dict(zip(g1.nodes(), g2.nodes()))}', 'return {**{-1: "self"}, **dict(zip(g1.nodes(), g1.nodes()))}'), "relabel.map-self", "not the position pairing"),
     Knockout("dedup-against-tail", RELABEL, sub_once("check_isomorphism(g_lc, orbit_list, _only_auto=with_iso)", "check_isomorphism(g_lc, orbit_list[-new_graphs:], _only_auto=with_iso)"), "distinct.source", "duplicate test against part"),
     Knockout("iso-batches-glued", RELABEL, sub_once("            adj_arr = automorph_check(adj_matrix, labels_arr)\n            n2", "            adj_arr = np.concatenate((adj_arr, automorph_check(adj_matrix, labels_arr)[1:]))\n            n2"), "distinct.source", "glued"),
